@@ -1,8 +1,13 @@
 //! C08 — OverlayFS never modifies lower layers; observers modify nothing.
 
 use super::common::*;
-use crate::gen::{overlay_cfg_strategy, Profile};
+use crate::config::*;
+use crate::engine::*;
+use crate::gen::*;
 use crate::hist::*;
+use crate::model::*;
+use proptest::prelude::*;
+use serde_json::{json, Value};
 
 pub fn prop() -> HistProp {
     let mut opts = HistOpts::new(Profile::Typed);
@@ -16,7 +21,7 @@ pub fn prop() -> HistProp {
         cases_quick: 6000,
         cases_thorough: 150_000,
         nontrivial: |s, c| s.lower_only_mutations >= 1 && (c.cfg.overlay_layers() >= 3 || c.cfg.nesting() >= 2),
-        rule: "overlays of 2..4 pre-populated layers (Mem/Phys/altroot/nested overlay as layer), typed histories incl. timestamp setters; every top-level layer is wrapped in a recorder: after each op no mutating trait call (create_*, append_file, remove_*, set_*_time, copy/move) and no handle write reached a layer with index>=1, pure observers (and the snapshot that follows every step) issued no mutating call to any layer, and a deep snapshot (types, bytes, created+modified times) of every lower layer taken through its own root is unchanged; non-trivial = >=1 mutating op on an entry that exists only in a lower layer, in a stack with >=3 layers or a nested adapter",
+        rule: "overlays of 2..4 pre-populated layers (Mem/Phys/altroot/nested overlay as layer), typed histories incl. timestamp setters; every top-level layer is wrapped in a recorder: after each op no mutating trait call (create_*, append_file, remove_*, set_*_time, copy/move) and no handle write reached a layer with index>=1, pure observers (and the snapshot that follows every step) issued no mutating call to any layer, and a deep snapshot (types, bytes, created+modified times) of every lower layer taken through its own root is unchanged; non-trivial = >=1 mutating op on an entry that exists only in a lower layer, in a stack with >=3 layers or a nested adapter; PLUS a directed battery: a lower-only file of a boundary / large size (up to 512 KiB) and 3..7 calls from {append, overwrite, copy, move, remove, re-create, setters, read} on it and on its copies, same recorder and deep-snapshot oracle",
         floors: vec![("distinct_nontrivial", 50)],
         assumptions: vec![
             "access time of lower-layer entries is excluded from the deep snapshot (reading updates it in MemoryFS and in the OS)",
@@ -27,4 +32,119 @@ pub fn prop() -> HistProp {
             st.label_n("lower_only_mutations", s.lower_only_mutations as u64);
         },
     }
+}
+
+// ---------------------------------------------------------------------------------------------
+// directed battery: copy-up and transfers of a (large) lower-only file
+// ---------------------------------------------------------------------------------------------
+
+#[derive(Clone, Debug)]
+pub struct CopyUpCase {
+    pub cfg: Cfg,
+    pub data: DataSpec,
+    pub layer: u8,
+    pub also_deeper: bool,
+    pub calls: Vec<(u8, DataSpec)>,
+}
+
+fn copyup_strategy() -> impl Strategy<Value = CopyUpCase> {
+    (overlay_cfg_strategy(2, 2), data_strategy(), any::<u8>(), any::<u8>(), any::<bool>(), proptest::collection::vec((0u8..14, data_strategy()), 3..=7)).prop_map(|(cfg, mut data, big, layer, also_deeper, calls)| {
+        // half of the files are of a block-boundary or large size
+        if big % 2 == 0 {
+            data.kind = 19 + big / 2 % 9;
+        }
+        CopyUpCase { cfg, data, layer, also_deeper, calls }
+    })
+}
+
+fn copyup_ops(case: &CopyUpCase) -> Vec<Op> {
+    let f = "/d/f".to_string();
+    let h = "/d/h".to_string();
+    let k = "/e/k".to_string();
+    case.calls
+        .iter()
+        .map(|(c, d)| {
+            let mut small = d.clone();
+            small.kind = 7 + small.kind % 12;
+            let bytes = make_bytes(&small);
+            match c {
+                0 | 1 => Op::Append(f.clone(), bytes),
+                2 => Op::CreateFile(f.clone(), bytes),
+                3 => Op::CopyFile(f.clone(), h.clone()),
+                4 => Op::Append(h.clone(), bytes),
+                5 => Op::MoveFile(f.clone(), k.clone()),
+                6 => Op::MoveFile(h.clone(), f.clone()),
+                7 => Op::RemoveFile(f.clone()),
+                8 => Op::Read(f.clone()),
+                9 => Op::CopyDir("/d".to_string(), "/e/dd".to_string()),
+                10 => Op::MoveDir("/d".to_string(), "/e/md".to_string()),
+                11 => Op::SetTime(f.clone(), TimeField::Modified, 1_000_000_000, 0),
+                12 => Op::Append(k.clone(), bytes),
+                _ => Op::RemoveDirAll("/d".to_string()),
+            }
+        })
+        .collect()
+}
+
+fn copyup_json(case: &CopyUpCase) -> Value {
+    json!({"kind": "c08-copyup", "cfg": case.cfg.to_json(), "data": data_to_json(&case.data), "layer": case.layer, "also_deeper": case.also_deeper, "calls": case.calls.iter().map(|(c, d)| json!([c, data_to_json(d)])).collect::<Vec<_>>()})
+}
+
+fn copyup_from_json(v: &Value) -> Option<CopyUpCase> {
+    Some(CopyUpCase {
+        cfg: Cfg::from_json(v.get("cfg")?)?,
+        data: data_from_json(v.get("data")?)?,
+        layer: v.get("layer")?.as_u64()? as u8,
+        also_deeper: v.get("also_deeper")?.as_bool()?,
+        calls: v.get("calls")?.as_array()?.iter().filter_map(|x| Some((x.get(0)?.as_u64()? as u8, data_from_json(x.get(1)?)?))).collect(),
+    })
+}
+
+fn test_copyup(case: &CopyUpCase, st: &mut Stats, counting: bool) -> CaseResult {
+    let hp = prop();
+    let n = case.cfg.overlay_layers().max(2);
+    let li = 1 + (case.layer as usize) % (n - 1);
+    let bytes = make_bytes(&case.data);
+    let mut prepop: Prepop = vec![(li, "/d/f".to_string(), Node::File(bytes.clone())), (li, "/d/g".to_string(), Node::File(std::sync::Arc::new(b"g".to_vec()))), (0, "/e".to_string(), Node::Dir)];
+    if case.also_deeper && li + 1 < n {
+        let mut other = bytes.to_vec();
+        other.reverse();
+        other.push(7);
+        prepop.push((li + 1, "/d/f".to_string(), Node::File(std::sync::Arc::new(other))));
+    }
+    let ops = copyup_ops(case);
+    let plan = Plan {
+        cfg: &case.cfg,
+        pool: ["d", "e", "f", "g", "h", "k", "dd", "md"].iter().map(|s| s.to_string()).collect(),
+        depth: 2,
+        prepop,
+        source: OpSource::Fixed(&ops),
+        replay: copyup_json(case),
+    };
+    let r = run_plan(&plan, &hp.opts, &*hp.exclude, st)?;
+    if counting {
+        st.label("copy_up_battery_cases");
+        st.label_n("copy_up_battery_ops", r.summary.executed as u64);
+        if bytes.len() >= 65536 {
+            st.label("copy_up_battery_file>=64KiB");
+            st.nontrivial.insert(crate::util::fnv_str(&format!("{:?}", case)));
+        }
+        if case.cfg.contains_phys() {
+            st.label("copy_up_battery_with_physical_layer");
+        }
+    }
+    Ok(())
+}
+
+pub fn run(ctx: &RunCtx) -> i32 {
+    prop().run_with(ctx, Some(&|ctx: &RunCtx| run_sharded(ctx, "copyup", ctx.tier.pick(2500, 60_000), copyup_strategy, test_copyup)))
+}
+
+pub fn replay(v: &Value) -> CaseResult {
+    if v.get("kind").and_then(|k| k.as_str()) == Some("c08-copyup") {
+        let case = copyup_from_json(v).ok_or_else(|| Failure { message: "unparsable C08 battery replay".into(), replay: v.clone() })?;
+        let mut st = Stats::default();
+        return test_copyup(&case, &mut st, false);
+    }
+    prop().replay(v)
 }
